@@ -23,7 +23,6 @@ import json
 import pickle
 import random
 import re
-import sys
 import types
 import weakref
 
